@@ -47,25 +47,27 @@ var w1World = driver.World{
 
 // produceRec is one produce attempt for one partition (ledger entry).
 type produceRec struct {
-	client, seq int
-	topic       string
-	part        int32
-	acks        int16
-	sent        []byte
-	markers     []string
-	nrec        int
-	malformed   bool
-	how         string // which header field was falsified
-	invoke, ret int
-	answered    bool
-	code        int16
-	base        int64
-	inc         string
-	durable     bool // was found in S3 when acknowledged
-	task        string // broker-side request task (write attribution)
-	appendSeen, heldAtAppend bool // C19: lease state at the step AppendBatch ran
-	heldAtAck   bool // lease state at the step the reply was produced
-	leaseNote   string
+	client, seq              int
+	topic                    string
+	part                     int32
+	acks                     int16
+	sent                     []byte
+	markers                  []string
+	nrec                     int
+	malformed                bool
+	how                      string // which header field was falsified
+	invoke, ret              int
+	answered                 bool
+	code                     int16
+	base                     int64
+	inc                      string
+	durable                  bool   // was found in S3 when acknowledged
+	task                     string // broker-side request task (write attribution)
+	appendSeen, heldAtAppend bool   // C19: lease state at the step AppendBatch ran
+	heldAtAck                bool   // lease state at the step the reply was produced
+	leaseNote                string
+	multi                    bool // one of several partitions of one request
+	order                    int  // position in that request
 }
 
 type fetchRec struct {
@@ -83,17 +85,17 @@ type fetchRec struct {
 }
 
 type bnode struct {
-	w      *w1
-	name   string
-	id     int32
-	incNo  int
-	inc    string
-	h      *handler
-	cancel context.CancelFunc
-	ctx    context.Context
-	reqSeq int
+	w         *w1
+	name      string
+	id        int32
+	incNo     int
+	inc       string
+	h         *handler
+	cancel    context.CancelFunc
+	ctx       context.Context
+	reqSeq    int
 	etcdStore *metadata.EtcdStore
-	pub    int64 // address used for the start -> request happens-before edge (race mode)
+	pub       int64 // address used for the start -> request happens-before edge (race mode)
 }
 
 type w1 struct {
@@ -111,19 +113,21 @@ type w1 struct {
 	fetchs []*fetchRec
 	corr   int32
 	// segMax: per partition prefix, the largest footer lastOffset of any segment object ever stored
-	segMax   map[string]int64
-	storeIdx int
-	hwLast   map[string]int64
-	authz    *acl.Authorizer
+	segMax      map[string]int64
+	storeIdx    int
+	hwLast      map[string]int64
+	authz       *acl.Authorizer
 	clientsLeft int
-	allDone  *simrt.Future
-	segCache map[string][]*kbatch.Batch
-	health   healthWatch
-	primHist map[string][]objVersion
-	replSeq  int
-	accepted map[string]bool
-	refACL   *refACL
-	etcd     *simetcd.Server
+	allDone     *simrt.Future
+	segCache    map[string][]*kbatch.Batch
+	health      healthWatch
+	primHist    map[string][]objVersion
+	replSeq     int
+	accepted    map[string]bool
+	refACL      *refACL
+	etcd        *simetcd.Server
+	ownerHist   map[string][]ownerAt // C19: live lease owner per partition, step by step
+	crashed     bool                 // some broker was crashed in this run
 }
 
 func discardLogger() *slog.Logger { return slog.New(slog.NewTextHandler(io.Discard, nil)) }
@@ -434,6 +438,7 @@ func (w *w1) setup() {
 			if node.h == nil {
 				return // already down, restart pending
 			}
+			w.crashed = true
 			s.KillNode(node.inc)
 			if node.cancel != nil {
 				node.cancel()
@@ -510,6 +515,8 @@ func (w *w1) clientOp(client, seq int, op simrt.Op) {
 	switch op.Kind {
 	case "produce":
 		w.opProduce(client, seq, op)
+	case "mproduce":
+		w.opMultiProduce(client, seq, op)
 	case "fetch":
 		w.opFetch(client, seq, op)
 	case "sleep":
@@ -588,6 +595,70 @@ func (w *w1) opProduce(client, seq int, op simrt.Op) {
 			rec.ret = w.sim.Step()
 		}
 		return
+	}
+}
+
+// opMultiProduce sends ONE produce request carrying a batch for every partition of a topic (in the
+// order op.B selects); each partition gets its own ledger entry, marked multi.
+func (w *w1) opMultiProduce(client, seq int, op simrt.Op) {
+	topic := w.topic(op.A)
+	nrec := int(op.C)
+	if nrec < 1 {
+		nrec = 1
+	}
+	acks := int16(op.D)
+	valLen := 8 + int(w.cfg("val_len", 24))
+	n := w.node(int64(client))
+	if w.etcdMode() {
+		n = w.node(int64(client + seq))
+	}
+	req := kmsg.NewPtrProduceRequest()
+	req.Version = int16(w.cfg("produce_version", 9))
+	req.Acks = acks
+	req.TimeoutMillis = 5000
+	rt := kmsg.NewProduceRequestTopic()
+	rt.Topic = topic
+	var recs []*produceRec
+	for i := int32(0); i < w.nparts; i++ {
+		part := i
+		if op.B%2 == 1 {
+			part = w.nparts - 1 - i
+		}
+		sent, markers := w.buildBatch(client, seq+1000000*int(part+1), nrec, valLen)
+		rec := &produceRec{client: client, seq: seq, topic: topic, part: part, acks: acks, sent: sent, markers: markers, nrec: nrec, multi: true, order: int(i)}
+		rec.invoke = w.sim.Step()
+		rec.inc = n.inc
+		w.ledger = append(w.ledger, rec)
+		recs = append(recs, rec)
+		rp := kmsg.NewProduceRequestTopicPartition()
+		rp.Partition = part
+		rp.Records = sent
+		rt.Partitions = append(rt.Partitions, rp)
+	}
+	req.Topics = append(req.Topics, rt)
+	w.sim.Probe("w1.multi-partition-produce")
+	_, _ = n.callT(req, fmt.Sprintf("c%d", client), func(task string) {
+		for _, rec := range recs {
+			rec.task = task
+		}
+	}, func(r kmsg.Response) {
+		pr := r.(*kmsg.ProduceResponse)
+		for _, t := range pr.Topics {
+			for _, p := range t.Partitions {
+				for _, rec := range recs {
+					if t.Topic == rec.topic && p.Partition == rec.part && !rec.answered {
+						rec.code, rec.base, rec.answered = p.ErrorCode, p.BaseOffset, true
+						rec.ret = w.sim.Step()
+						w.onProduceAck(rec)
+					}
+				}
+			}
+		}
+	})
+	for _, rec := range recs {
+		if rec.ret == 0 {
+			rec.ret = w.sim.Step()
+		}
 	}
 }
 
